@@ -12,7 +12,8 @@ the real functions read from /repo's working tree:
      (Python tokenizer rule: backslash escapes the next character, first unescaped triple quote ends it).
  (3) utils/lines.py wrap with a step-by-step model of textwrap (validated against the real textwrap on every run): for
      ALL texts within the bound and several (width, indent, offset) settings incl. widths small enough to force
-     re-wrapping, wrap never drops, duplicates or reorders a word.  The width clause is not encoded.
+     re-wrapping, wrap never drops, duplicates or reorders a word, and every output line fits the requested width
+     (first line: width - offset) unless it holds a single unbreakable word.
 """
 from __future__ import annotations
 
@@ -321,7 +322,7 @@ def body(chk: core.Check):
         "breaking are outside the family and counted",
         "the docstring body is followed directly by the closing triple quotes (worst case of every template context)",
     ]
-    chk.outside += ["wrap(): the 'never exceeds the width' clause; texts whose over-long first line contains tabs or starts "
+    chk.outside += ["wrap(): texts whose over-long first line contains tabs or starts "
                     "with blanks (known finding F3)",
                     "the pandoc branch of rst()", "Metadata.doc comment selection", "strings longer than the bounds"]
     rnd = random.Random(chk.seed)
@@ -415,7 +416,7 @@ def body(chk: core.Check):
         for lv, checks, secs, cex, task in wres:
             key = f"wrap:{task['family']}:L={task['L']},c0={task['prefix']},w={task['width']},i={task['indent']},o={task['offset']}"
             if cex is None:
-                chk.ok("wrap-words-preserved", key, secs, n=max(lv, 1))
+                chk.ok("wrap-words-preserved-and-width", key, secs, n=max(lv, 1))
             else:
                 text = wf.py_wrap_violation(cex, task["width"], task["indent"], task["offset"])
                 if text:
@@ -435,6 +436,15 @@ def body(chk: core.Check):
             r = wf.wrap_task(dict(L=5, prefix=(c0,), width=72, indent=0, offset=0, alphabet=notab, source=mut))
             fired = fired or r[3] is not None
         chk.canary("wrap applying the colon rule to 'x: ' first lines (in-memory mutant)", fired)
+        # canary: the re-flow of the remainder done two columns too wide (in-memory mutant) -> width clause
+        src0 = open(wf.LINES).read()
+        mut = src0.replace("                    width=width,\n", "                    width=width + 2,\n")
+        fired = False
+        if mut != src0:
+            for c0 in (ord("a"),):
+                r = wf.wrap_task(dict(L=6, prefix=(c0,), suffix=tuple(map(ord, " a a")), width=8, indent=0, offset=0, alphabet=notab, source=mut))
+                fired = fired or r[3] is not None
+        chk.canary("wrap re-flowing the remainder two columns too wide (in-memory mutant)", fired)
 
     # ---- sensitivity canaries (in-memory mutants of the loaded sources) --------------------------
     src = open(FMT).read().replace('return f"{code.rstrip()}\\n"', 'return f"{code.rstrip(chr(32))}\\n"')
